@@ -77,7 +77,7 @@ theorem eof_last (ca cb : SideCfg) (evs : List Event) (s : Sys) (h : (Sys.init c
       (tl = [] ∨ tl = [.eof] ∨ tl = [.lost] ∨ tl = [.eof, .lost]) :=
   ((reachable_inv ca cb evs s h).g y).shape
 
-/-- **EOF if sent** (unconditional since fix 024eb80): once the peer has put EOF on the wire and it is no longer in
+/-- **EOF if sent** (receiver side, unconditional since fix 024eb80): once the peer has put EOF on the wire and it is no longer in
     flight, a reader that is not paused and has not closed HAS had `eof_received()` called — also when the peer's
     CLOSE arrived while the EOF was still waiting behind undelivered data or behind a channel that had not
     started reading (`_recv_eof_pending`). -/
@@ -96,6 +96,33 @@ theorem eof_delivered_if_sent (ca cb : SideCfg) (evs : List Event) (s : Sys) (h 
     · exact absurd hp ((hinv.wf x.other).closeP h2)
   · exact h1
   · rw [hopen] at h1; cases h1
+
+/-- **EOF if signalled** (unconditional since fix d334dad): once the application has called `write_eof()` while its
+    send half was open — i.e. before its own `close()` — and everything it buffered has gone out (send buffer
+    empty), nothing is left in flight, and the reader is not paused and has not closed: `eof_received()` HAS been
+    called.  Together with `eof_only_if_signalled` this is "end-of-file if and only if the sender signalled it". -/
+theorem eof_delivered_if_signalled (ca cb : SideCfg) (evs : List Event) (s : Sys)
+    (h : (Sys.init ca cb).run evs = .ok s) (x : Side) (hs : (s.hist x).eofSig = true)
+    (hbuf : (s.ep x).sendBuf = []) (hfl : Msg.eof ∉ s.link x.other)
+    (hp : (s.ep x.other).recvPaused = .no) (hopen : (s.hist x.other).appClosed = false) :
+    Out.eof ∈ (s.hist x.other).dl := by
+  have hinv := reachable_inv ca cb evs s h
+  have hsg := run_siginv evs _ s (inv_init ca cb) (siginv_init ca cb) h
+  rcases hsg.sig x hs with h1 | h1 | h1
+  · exact eof_delivered_if_sent ca cb evs s h x h1 hfl hp hopen
+  · exfalso
+    have hpend := (hinv.wf x).pend
+    rcases h1 with h2 | ⟨h2, _⟩
+    · exact hpend (Or.inl h2) hbuf
+    · exact hpend (Or.inr h2) hbuf
+  · rw [hopen] at h1; cases h1
+
+/-- the writes to `_send_eof_pending` the model's `sendEofPending` mirrors, and the shape of the close branch of
+    `_flush_send_buf`, as the translator finds them -/
+theorem send_eof_pending_flag_sites : Gen.C07.sendEofPendingSites =
+    ["__init__: self._send_eof_pending = False", "_flush_send_buf: self._send_eof_pending = False",
+     "close: self._send_eof_pending = self._send_state == 'eof_pending'"] ∧
+    Gen.C07.closeSendsPendingEof = true := by decide
 
 /-- the writes to `_recv_eof_pending` the model's `recvEofPending` mirrors, as the translator finds them -/
 theorem eof_pending_flag_sites : Gen.C07.recvEofPendingSites =
@@ -149,17 +176,27 @@ theorem eof_delivered_when_close_overtakes_starting :
   refine ⟨_, rfl, ?_⟩
   decide +kernel
 
-/-- **What is still missing on the SENDER side** (not touched by the three fixes; reported by the oracle as
-    `eof-not-sent:close-overrides-pending-eof`): `write_eof()` followed by `close()` while data is still waiting
-    for window: `close()` replaces `'eof_pending'` by `'close_pending'`, the EOF message is never sent, and the
-    receiver gets all the data and `connection_lost` but no `eof_received()`.  Hence `eof_delivered_if_sent`
-    speaks of EOF *sent* (`eofSent`), not of `write_eof()` *called* (`eofSig`). -/
-theorem eof_not_sent_when_close_overrides :
-    ∃ s, (Sys.init { f13Cfg.1 with window := 4 } f13Cfg.2).run
+/-- **Witness for the code BEFORE fix d334dad** (`Sys.runOld`: `close()` replaces `'eof_pending'` by
+    `'close_pending'` and the tail of `_flush_send_buf` sends only CLOSE): `write_eof()` followed by `close()` while
+    data is still waiting for window — the EOF message is never sent, the receiver gets all the data and
+    `connection_lost` but no `eof_received()`. -/
+theorem eof_not_sent_when_close_overrides_old :
+    ∃ s, (Sys.init { f13Cfg.1 with window := 4 } f13Cfg.2).runOld
         [.app .b (.write none [1, 2, 3, 4, 5, 6, 7, 8]), .app .b .writeEof, .app .b .close,
          .deliver .a, .deliver .b, .deliver .a, .deliver .a, .deliver .b, .deliver .b] = .ok s ∧
       (s.hist .b).eofSig = true ∧ (s.hist .b).eofSent = false ∧ s.link .a = [] ∧ s.link .b = [] ∧
       (s.hist .a).dl = [.data none [1, 2, 3, 4], .data none [5, 6, 7, 8], .lost] := by
+  refine ⟨_, rfl, ?_⟩
+  decide +kernel
+
+/-- the same scenario on the code as it is now: DATA, DATA, EOF, CLOSE on the wire; data, data, EOF, lost at
+    the session -/
+theorem eof_sent_when_close_overrides :
+    ∃ s, (Sys.init { f13Cfg.1 with window := 4 } f13Cfg.2).run
+        [.app .b (.write none [1, 2, 3, 4, 5, 6, 7, 8]), .app .b .writeEof, .app .b .close,
+         .deliver .a, .deliver .b, .deliver .a, .deliver .a, .deliver .a, .deliver .b, .deliver .b] = .ok s ∧
+      (s.hist .b).eofSent = true ∧ s.link .a = [] ∧ s.link .b = [] ∧
+      (s.hist .a).dl = [.data none [1, 2, 3, 4], .data none [5, 6, 7, 8], .eof, .lost] := by
   refine ⟨_, rfl, ?_⟩
   decide +kernel
 
